@@ -119,12 +119,17 @@ class Parameter:
 
         # we now pass the proposal through a 'reflecting' function where
         # proposals falling outside the boundary are reflected inside
-        d = prop - self.lower
-        n = (d // self.width) % 2
+        lower, width = self.lower, self.width
+        if self._non_negative and lower < 0.0 < self.upper:
+            # the non-negativity switch is on as well: both limits are in force,
+            # so the allowed interval is [0, upper]
+            lower, width = 0.0, self.upper
+        d = prop - lower
+        n = (d // width) % 2
         if n == 0:
-            return self.lower + d % self.width
+            return lower + d % width
         else:
-            return self.upper - d % self.width
+            return self.upper - d % width
 
     def submit_accept_prob(self, p: float):
         self.num += 1
